@@ -135,7 +135,8 @@ CLAIMS["C05"] = {
             "document grammar written from the spec (gramspec.rs over lexspec.rs) evaluated on the implementation: error-free ⟺ accepted and equal (kind,name) definition "
             "lists — on all token sequences ≤5/6 over 15 tokens (~810k), 20k/200k generated documents covering every production (coverage counters in the evidence) and "
             "their single/double token mutations, and the repo's test data. Machine-checked in Lean: accepted documents are covered whole by the tree, the top-level loop "
-            "only stops at EOF, kernel-evaluated witnesses of three repaired defects (schema without braces, comma in look-ahead, argument/object field without value) and "
+            "only stops at EOF, kernel-evaluated witnesses of three repaired defects (schema without braces, comma in look-ahead, argument/object field without value; a fourth, "
+            "`extend schema @d { }` accepted, was found by the thorough tier's 6-token enumeration and repaired by 50fb92a, its inputs now run first in the quick tier) and "
             "of the known finding (`schema{query:}`). No theorem yet relates the parser model to a grammar specification.",
     "note": TB + "The reference recogniser is our reading of Appendix B; it shares no code with apollo-parser.",
 }
